@@ -65,3 +65,5 @@ index_left_harness!(c11_index_left_8, 8);
 index_left_harness!(c11_index_left_9, 9);
 
 harness!(c20_add_days_total, 6, |a: u8, days: i8, mk_: u8, st: bool| pre pre_tot(a, mk_), chk chk_add_days_total(a, days, mk_, st), cover days == 127);
+harness!(c20_add_bus_days_total, 130, |a: u8, days: i8, st: bool| pre pre_tot(a, 0), chk chk_add_bus_days_total(a, days, st), cover days == -128);
+harness!(c20_lag_total, 130, |a: u8, days: i8, st: bool| pre pre_tot(a, 0), chk chk_lag_total(a, days, st), cover days == 127);
